@@ -30,8 +30,8 @@ def write_readme():
             "| id | breaks | what | needs to manifest | confirmed | caught by (quick tier) |\n|---|---|---|---|---|---|\n"
         )
         for m in rows:
-            cb = ", ".join(m["caught_by"]) if m["caught_by"] else ("not caught - see meta.json not_caught_note" if m.get("not_caught_note") else "**missed**")
-            f.write(f"| {m['id']} | {m['breaks_property']} | {m.get('what', '')} | {m.get('needs_to_manifest', '')} | {'yes' if m['confirmed'] else 'NO'} | {cb} |\n")
+            cb = ", ".join(m["caught_by"]) if m["caught_by"] else ("not caught - see meta.json not_caught_note" if m.get("not_caught_note") else ("no longer breaks the property on the repaired tree - see meta.json neutralised_note" if m.get("neutralised_note") else "**missed**"))
+            f.write(f"| {m['id']} | {m['breaks_property']} | {m.get('what', '')} | {m.get('needs_to_manifest', '')} | {'yes' if m['confirmed'] else ('was (before a later fix)' if m.get('neutralised_note') else 'NO')} | {cb} |\n")
 
 
 def main():
